@@ -151,3 +151,12 @@ Definition run_check (prologue : list cond) (vbody : list stmt) (lbody : list ls
 
 (* cycleDetector.Check as regenerated from the source on this run *)
 Definition src_detect : graph -> list nat -> outcome := run_check check_prologue visit_body check_body.
+
+(* ---- one detector kept between runs (Model/C06.v, run_session) ---- *)
+(* what a cycleDetector can carry from one Check to the next: its fields as regenerated from the
+   source, without the pointer to the graph *)
+Definition src_persistent : list dfield :=
+  filter (fun f => match f with DGraph => false | DStopped => true end) detector_fields.
+
+(* a session in which every Check is the regenerated one *)
+Definition src_session : world -> list event -> list ran := run_session src_detect.
